@@ -140,6 +140,45 @@ impl IndexData {
        spec=WRITE_POST % dict(onto='ser_pkg_onto(old(out).sunk(), *self)'),
        before=[('self.metadata.write(out)?;', 'proof { lemma_meta_onto_grow(old(out).sunk(), self.metadata); }\n        ')]),
     Raw('''}
+// ---- plain-form contracts used by other units (proved here from the accumulator form) ----------
+pub open spec fn ser_lead(l: Lead) -> Seq<u8> {
+    l.magic@ + seq![l.major] + seq![l.minor] + be16(l.package_type) + be16(l.arch) + l.name@
+      + be16(l.os) + be16(l.signature_type) + l.reserved@
+}
+pub open spec fn ser_meta(m: PackageMetadata) -> Seq<u8> {
+    ser_lead(m.lead) + ser_header(m.signature) + zeros(sigpad(m.signature.index_header.data_section_size as int)) + ser_header(m.header)
+}
+/// `Header::write` into a Vec: Ok and exactly `ser_header` appended (contract quoted by units
+/// c03_digests, c02_verify_sig, c10_sign)
+pub fn c14_header_write_plain<T: Tag>(h: &Header<T>, out: &mut Vec<u8>) -> (r: Result<(), Error>)
+    ensures r is Ok, final(out)@ == old(out)@ + ser_header(*h),
+{
+    let r = h.write(out);
+    proof { lemma_header_onto(old(out)@, *h); }
+    r
+}
+/// `PackageMetadata::write` into a Vec: Ok and exactly `ser_meta` appended (quoted by c01_parse)
+pub fn c14_metadata_write_plain(m: &PackageMetadata, out: &mut Vec<u8>) -> (r: Result<(), Error>)
+    ensures r is Ok, final(out)@ == old(out)@ + ser_meta(*m),
+{
+    let r = m.write(out);
+    proof {
+        let p = old(out)@;
+        reveal(ser_meta_onto);
+        reveal(ser_lead_onto);
+        reveal(ser_sig_onto);
+        let p1 = ser_lead_onto(p, m.lead);
+        assert(p1 =~= p + ser_lead(m.lead));
+        lemma_header_onto(p1, m.signature);
+        let p2 = ser_sig_onto(p1, m.signature);
+        let pad = sigpad(m.signature.index_header.data_section_size as int);
+        assert(zeros(0) =~= Seq::<u8>::empty());
+        assert(p2 =~= p1 + ser_header(m.signature) + zeros(pad));
+        lemma_header_onto(p2, m.header);
+        assert(ser_meta_onto(p, *m) =~= p + ser_meta(*m));
+    }
+    r
+}
 // vacuity canary: must FAIL (the VWrite contract is satisfiable and does not prove false)
 pub fn canary_c14_sink<W: VWrite>(out: &mut W, b: &[u8])
 {
@@ -169,5 +208,7 @@ OBLIGATIONS = {
     'lemma_lead_onto_grow': ['C01', 'C14'],
     'lemma_meta_onto_grow': ['C01', 'C14'],
     'lemma_pre_trans': ['C01', 'C14'],
+    'c14_header_write_plain': ['C01', 'C14', 'C03', 'C02', 'C10', 'C08'],
+    'c14_metadata_write_plain': ['C01', 'C14'],
 }
 CANARIES = ['canary_c14_sink']
